@@ -79,6 +79,19 @@ fn main() {
     });
     let ctx = run::Ctx { prop: prop.clone(), tier, seed, repo, verif, threads, g: vref::altitude::Gillham::new(), wd, start: std::time::Instant::now(), args: args.clone() };
     let _ = std::fs::remove_dir_all(&replay_dir);
+    if prop == "GEN-C20" {
+        let out = get("--out").expect("--out");
+        match trk::gen_c20_corpus(&ctx, &out) {
+            Ok((f, p, h)) => {
+                println!("corpus frames={f} pairs={p} histories={h}");
+                std::process::exit(0);
+            }
+            Err(e) => {
+                println!("INCONCLUSIVE cannot write corpus: {e}");
+                std::process::exit(2);
+            }
+        }
+    }
     let code = match prop.as_str() {
         "C01" | "C02" | "C03" | "C04" | "C06" | "C07" | "C08" | "C09" | "C10" | "C11" => dec::run(&ctx),
         "C19" => rdr::run(&ctx),
